@@ -72,7 +72,8 @@ def names_for(style, nE):
     if style in (None, 'plain'):
         return [f'E{i}' for i in range(nE)]
     k = int(style[1:])
-    return [MEMBER_NAMES[(3 * k + i) % len(MEMBER_NAMES)] for i in range(nE)]
+    pool = MEMBER_NAMES[3 * k:] + MEMBER_NAMES[:3 * k]
+    return [pool[i] if i < len(pool) else f'E{i}' for i in range(nE)]
 
 
 def names_of(case):
@@ -115,6 +116,9 @@ def scripted_class(nE, check, mixins=(), exo=('X',), style=None):
             if k == 'set':
                 for i, x in enumerate(v[:nE]):
                     self._put(names[i], t, x)
+            elif k == 'iadd':       # exact integer step on an integer-dtype model (no float in between)
+                for nm in names:
+                    self.__dict__['_' + nm][t] += int(act['d'])
             elif k == 'raise':
                 for i, x in enumerate(v[:min(m, nE)]):
                     self._put(names[i], t, x)
@@ -272,7 +276,9 @@ def build_instance(case, mixins=(), span=None, exo=('X',)):
     def prepare(m0):        # what the scripted hooks need in order to run at all
         m0.__dict__.update(script=[], before_script=[], after_script=[], calls=[], passes=[], v0=None,
                            seen_at_before=None, write_mode='inplace')
-    m = with_provenance(cls, list(range(n)) if span is None else span, case.get('prov', 'fresh'), names, prepare)
+    dtype = {'int': int, 'float32': np.float32}.get(case.get('dtype'))
+    make = (lambda sp: cls(sp, dtype=dtype)) if dtype is not None else cls
+    m = with_provenance(make, list(range(n)) if span is None else span, case.get('prov', 'fresh'), names, prepare)
     for i, row in enumerate(case['vals']):
         m.__dict__['_' + names[i]][:] = [unbits(b) for b in row]
     m.status[:] = list(case['status'])
@@ -462,6 +468,10 @@ def outcome_vals(kind, prev, nE):
         v = [p + 0.125 if np.isfinite(p) else 1.0 for p in prev]
         v[-1] = (prev[-1] if np.isfinite(prev[-1]) else 0.0) - 2.0
         return v
+    if kind == 'zero':   # every value exactly 0.0 (what 'replace' turns a non-finite previous value into)
+        return [0.0 for p in prev]
+    if kind == 'istep':  # integer-valued models: the smallest possible move (1), far above any tol < 1
+        return [p + 1.0 if np.isfinite(p) else 1.0 for p in prev]
     if kind == 'huge':   # finite values whose SUM overflows: finiteness is a per-element notion
         return [1.0e308 for p in prev]
     if kind == 'nan':
